@@ -529,6 +529,16 @@ pub fn generate(args: &Args) -> Vec<String> {
     for s in &strs {
         l.push(format!("ssr nodes (L {})", sx_n(&N::El { tag: "p".into(), attrs: vec![("title".into(), s.clone())], battrs: vec![], children: vec![N::TS(s.clone()), N::TD(s.clone()), N::TS(s.clone())], inner: None, hk: None })));
     }
+    // boolean attributes by NAME: present when true, absent when false, whatever HTML says about the attribute (the client
+    // back ends do the same); through the node constructor and through the builder API
+    for name in ["checked", "disabled", "hidden", "open", "selected", "spellcheck", "draggable", "contenteditable", "aria-hidden", "aria-busy", "async", "data-on", "x-flag", "translate", "autocomplete"] {
+        for tag in ["div", "input", "textarea"] {
+            for v in [true, false] {
+                l.push(format!("ssr nodes (L {})", sx_n(&N::El { tag: tag.into(), attrs: vec![("id".into(), "a".into())], battrs: vec![(name.into(), v), ("hidden".into(), !v)], children: vec![], inner: None, hk: None })));
+                l.push(format!("ssr view (L {})", sx_v(&V::El { tag: tag.into(), attrs: vec![("title".into(), Some("t".into()))], battrs: vec![(name.into(), v)], children: vec![] })));
+            }
+        }
+    }
     let n = if thorough { 400_000 } else { 12_000 };
     for i in 0..n {
         match i % 4 {
